@@ -14,7 +14,7 @@ import (
 // C20 — a truncated or xref-damaged file still gives up every complete object.
 
 func init() {
-	addRun("C20", "documents written by the real Writer without object streams, on non-seekable and seekable sinks (versions 1.2-2.0, human-readable or compact, xref table or xref stream, random object trees, streams with short and long bodies, direct and indirect /Length; bodies free of line-initial markers); random small documents with EVERY truncation offset 0..len and every single-byte and whole-range overwrite, plus documents with 1/9/10/11/25/40 streams of >= 1 KiB whose /Length is an indirect object behind the stream (mixed with short streams and plain objects; bodies with endobj, endstream, object headers in mid-line, with lines that START with endstream (known finding scan-stream-broken-by-endstream-line-in-data when the length object is cut off), and ending in LF, CR LF, LF LF, CR CR LF — which must come back from EOL+endstream when the length object is cut off; delimited only by /Length are bodies ending in a bare CR and bodies in which endobj occurs behind a line starting with endstream) cut at every object boundary +-2 and sampled interior offsets (all offsets in thorough), ; documents with a filler object of 0..1100 bytes in front of small trailing objects, cut at every offset within 80 bytes of a multiple of 1024; every offset up to 80 bytes behind each object is a cut; documents with marker-like text (N G obj, a chopped N G obj, xref, trailer, startxref, %%EOF) in the MIDDLE of a line of a 3 kB stream body, its first byte at every file offset 960k-2..960k+2 (k=1..3; thorough: every offset of the first 2400 body bytes) where scanner.Find restarts its search, cut at every object end: nothing may be recorded at an offset that is not the start of a line (objects, also Broken ones, and the xref/trailer/startxref/%%EOF positions of the sections); and every single-byte and whole-range overwrite of the xref table lines / xref stream data / startxref value; SequentialScan must succeed when >=1 object is complete, list every complete object at its true offset not broken, Read must give the written value, listed incomplete objects must be Broken, MakeReader+Get must give the written values after xref damage. A case is one (document, cut) or (document, overwrite) pair; non-trivial when at least one object is complete; distinct by the damaged bytes.", runC20)
+	addRun("C20", "documents written by the real Writer without object streams, on non-seekable and seekable sinks (versions 1.2-2.0, human-readable or compact, xref table or xref stream, random object trees, streams with short and long bodies, direct and indirect /Length; bodies free of line-initial markers); random small documents with EVERY truncation offset 0..len and every single-byte and whole-range overwrite, plus documents with 1/9/10/11/25/40 streams of >= 1 KiB whose /Length is an indirect object behind the stream (mixed with short streams and plain objects; bodies with endobj, endstream, object headers in mid-line, with lines that START with endstream (known finding scan-stream-broken-by-endstream-line-in-data when the length object is cut off), and ending in LF, CR LF, LF LF, CR CR LF — which must come back from EOL+endstream when the length object is cut off; delimited only by /Length are bodies ending in a bare CR and bodies in which endobj occurs behind a line starting with endstream) cut at every object boundary +-2 and sampled interior offsets (all offsets in thorough), ; documents with a filler object of 0..1100 bytes in front of small trailing objects, cut at every offset within 80 bytes of a multiple of 1024; every offset up to 80 bytes behind each object is a cut; documents with marker-like text (N G obj, a chopped N G obj, xref, trailer, startxref, %%EOF) in the MIDDLE of a line of a 3 kB stream body, its first byte at every file offset 960k-2..960k+2 (k=1..3; thorough: every offset of the first 2400 body bytes) where scanner.Find restarts its search, cut at every object end: nothing may be recorded at an offset that is not the start of a line (objects, also Broken ones, and the xref/trailer/startxref/%%EOF positions of the sections); documents with object numbers 65535, 65536, 70000, 100001 (without cross-reference data also 2^24-2, 2^24-1) and generations 0, 1, 65535 written through Put(NewReference), without cross-reference data at every cut and complete with cuts at every object end and whole-range xref overwrites; and every single-byte and whole-range overwrite of the xref table lines / xref stream data / startxref value; SequentialScan must succeed when >=1 object is complete, list every complete object at its true offset not broken, Read must give the written value, listed incomplete objects must be Broken, MakeReader+Get must give the written values after xref damage. A case is one (document, cut) or (document, overwrite) pair; non-trivial when at least one object is complete; distinct by the damaged bytes.", runC20)
 	addReplay("C20", "scan", replayC20)
 }
 
@@ -332,11 +332,20 @@ func hisWriteDoc(r *Rand, kind string) (doc *hisDoc, err error) {
 			return hisWriteDoc(r, fmt.Sprintf("%s@%d", kind, mAbs-at))
 		}
 	}
+	// "g<v>" / "G<v>": objects with large numbers (65535, 65536, 70000, 100001; G: also 2^24-2 and
+	// 2^24-1, the largest below maxXRefSize) and generations 0, 1, 65535 (rotated by v), written
+	// through Put with pdf.NewReference.  g: a complete document (its cross-reference data has
+	// 100002 entries); G: the Writer is not closed (a file without any cross-reference data)
+	gVar, unclosed := -1, false
+	if kind[0] == 'g' || kind[0] == 'G' {
+		gVar, _ = strconv.Atoi(kind[1:])
+		unclosed = kind[0] == 'G'
+	}
 	small := kind == "r1" || kind == "1"
 	versions := []pdf.Version{pdf.V1_2, pdf.V1_4, pdf.V1_7, pdf.V2_0, pdf.V1_5}
 	v := Pick(r, versions)
 	opt := &pdf.WriterOptions{HumanReadable: r.Bool()}
-	if nLong >= 25 || pad >= 0 || mTok >= 0 {
+	if nLong >= 25 || pad >= 0 || mTok >= 0 || gVar >= 0 {
 		opt.HumanReadable = false
 	}
 	if v >= pdf.V2_0 || r.P(1, 3) {
@@ -476,7 +485,36 @@ func hisWriteDoc(r *Rand, kind string) (doc *hisDoc, err error) {
 	addPlain(pagesRef, before, wireNorm(pages))
 	w.GetMeta().Catalog.Pages = pagesRef
 
-	if mTok >= 0 {
+	if gVar >= 0 {
+		nums := []uint32{65535, 65536, 70000, 100001}
+		if unclosed {
+			nums = append(nums, 1<<24-2, 1<<24-1)
+		}
+		gens := []uint16{0, 1, 65535}
+		// the low numbers first: Alloc continues behind the largest number used
+		for k := r.Intn(3); k > 0; k-- {
+			if err := putPlain(300 + k); err != nil {
+				return nil, err
+			}
+		}
+		for i, n := range nums {
+			ref := pdf.NewReference(n, gens[(i+gVar)%3])
+			before := sink.Len()
+			var o pdf.Object = pdf.Dict{"Big": pdf.Integer(int64(n)), "Gen": pdf.Integer(int64(ref.Generation())), "V": pdf.Array{pdf.Name("v"), pdf.Integer(int64(r.Intn(1000)))}}
+			if i%3 == 1 {
+				o = pdf.Integer(int64(n))
+			}
+			if err := w.Put(ref, o); err != nil {
+				return nil, err
+			}
+			addPlain(ref, before, wireNorm(normObj(o)))
+		}
+		if unclosed {
+			doc.bytes = append([]byte(nil), sink.Bytes()...)
+			doc.xrefLo, doc.xrefHi, doc.sxLo, doc.sxHi = len(doc.bytes), len(doc.bytes), len(doc.bytes), len(doc.bytes)
+			return doc, nil
+		}
+	} else if mTok >= 0 {
 		for k := r.Intn(3); k > 0; k-- {
 			if err := putPlain(100 + k); err != nil {
 				return nil, err
@@ -1035,7 +1073,7 @@ func runC20(c *Ctx) {
 			c.Violate("scan", "writer-fails", "the Writer fails: "+err.Error(), fmt.Sprintf("%d %s cut 0", seed, kind))
 			return
 		}
-		if strings.HasPrefix(kind, "m") || strings.HasPrefix(kind, "p") {
+		if strings.HasPrefix(kind, "m") || strings.HasPrefix(kind, "p") || strings.HasPrefix(kind, "g") || strings.HasPrefix(kind, "G") {
 			c.Stat("doc_kind_" + kind[:1])
 		} else {
 			c.Stat("doc_kind_" + kind)
@@ -1214,6 +1252,17 @@ func runC20(c *Ctx) {
 				runDoc(fmt.Sprintf("m%d_%d", ti, a), seed, "ends", 0, 0, 0)
 				c.Stat("midline_marker_documents")
 			}
+		}
+	}
+	// 5. object numbers >= 65536 and generations up to 65535 (the header parse of locateObjects:
+	// number < maxXRefSize = 2^24, generation <= 65535): files without cross-reference data at
+	// EVERY cut (all sent to the model), complete documents cut at every object end and with
+	// their cross-reference data / startxref overwritten as a whole
+	gQuick := r.Intn(3) // quick: one of the three complete documents (2 MB each)
+	for v := 0; v < 3; v++ {
+		runDoc(fmt.Sprintf("G%d", v), r.U64(), "all", 0, 0, 1<<30)
+		if v == gQuick || c.Thorough {
+			runDoc(fmt.Sprintf("g%d", v), r.U64(), "ends", 0, 1<<30, 0)
 		}
 	}
 	c.rep.Exhaustive = true
